@@ -476,12 +476,11 @@ func (j *raceJob) wait() {
 	}
 }
 
-func (j *raceJob) runAsync(r *mc.Run, procs int) chan raceResult {
+func (j *raceJob) runAsync(r *mc.Run, procs int, secs float64) chan raceResult {
 	ch := make(chan raceResult, 1)
-	secs := 25.0
 	real := 2
 	if !r.Quick() {
-		secs, real = 300, 12
+		real = 12
 	}
 	go func() {
 		cmd := exec.Command(j.bin, "-racechild", fmt.Sprintf("-seconds=%g", secs), fmt.Sprintf("-realreps=%d", real))
@@ -569,7 +568,14 @@ func reportRace(r *mc.Run, rr raceResult) {
 		for _, f := range s.OracleFailures {
 			if !seen[f] {
 				seen[f] = true
-				r.Violation("C18:free-running:foreign-or-lost-message", "free-running pass: "+f, replayArt{Kind: "race", Obs: f})
+				// while a connection is being torn down by another goroutine the known
+				// cleanup/handlePacket race can deliver the tail of a message (deterministic
+				// twin: sequential case stop-during-receive); anything else is a separate class
+				sig := "C18:free-running:foreign-or-lost-message"
+				if strings.Contains(f, "(stop under traffic)") || strings.Contains(f, "malformed-close") {
+					sig = "C18:free-running:partial-delivery-during-teardown"
+				}
+				r.Violation(sig, "free-running pass: "+f, replayArt{Kind: "race", Obs: f})
 			}
 		}
 	} else {
